@@ -367,7 +367,7 @@ def run(model, tier="quick"):
                   "order size rounded to the contract step", opaque=["round_decimal"])
     formula_check(res, model, "DeribitOptionMarket.check_transaction", REF_CHECK,
                   "pre-trade checks: presence, state, dust, price caps vs mark, limit level, available size",
-                  opaque=["round_decimal", "_find_available_orders", "__get_trade_amount"])
+                  opaque=["round_decimal", "_find_available_orders"])
     fx = ["_subtract_from_balance", "_add_to_balance", "_record_action"]
     effects_check(res, model, "DeribitOptionMarket.buy", REF_BUY,
                   "buy: cash -= sum(price*size)+fee of the fills; book := displayed asks - fills; position += n with "
